@@ -739,17 +739,20 @@ impl Stringify for Value {
                             right,
                             location,
                         } => {
-                            let split = if let Expression::ToStringWithoutUndefined { .. }
-                            | Expression::LitStr { .. } = &**left
-                            {
-                                true
-                            } else if let Expression::ToStringWithoutUndefined { .. }
-                            | Expression::LitStr { .. } = &**right
-                            {
-                                true
-                            } else {
-                                false
-                            };
+                            // only chains built from mixed text (`a{{b}}c`) can be printed as mixed text:
+                            // every piece is a static string or a binding converted to string;
+                            // a user-written `'a' + b` must stay an expression
+                            fn is_text_piece(expr: &Expression) -> bool {
+                                match expr {
+                                    Expression::ToStringWithoutUndefined { .. }
+                                    | Expression::LitStr { .. } => true,
+                                    Expression::Plus { left, right, .. } => {
+                                        is_text_piece(left) && is_text_piece(right)
+                                    }
+                                    _ => false,
+                                }
+                            }
+                            let split = is_text_piece(left) && is_text_piece(right);
                             if split {
                                 split_expression(&left, stringifier, start_location, location)?;
                                 split_expression(&right, stringifier, location, end_location)?;
